@@ -92,6 +92,7 @@ type Result struct {
 	Mismatch    bool              `json:"hash_mismatch,omitempty"`
 	Interleaved bool              `json:"interleaved,omitempty"`
 	Points      []string          `json:"points,omitempty"`
+	Spawns      map[string]int    `json:"spawns,omitempty"`
 	scenario    string
 }
 
@@ -272,6 +273,7 @@ type agg struct {
 	perScenario map[string]int
 	panicClasses map[string]int
 	points      map[string]bool
+	spawns      map[string]int
 	hungSample  string
 }
 
@@ -297,6 +299,9 @@ func (a *agg) add(r Result) {
 	}
 	if nontrivial && r.Hash != "" {
 		a.hashes[r.scenario+":"+r.Hash] = true
+	}
+	for k, v := range r.Spawns {
+		a.spawns[k] += v
 	}
 	for _, p := range r.Points {
 		a.points[r.scenario+":"+p] = true
@@ -389,7 +394,7 @@ func main() {
 	defer cleanup()
 	fmt.Printf("built harness against instrumented /repo in %.1fs\n", time.Since(start).Seconds())
 
-	a := &agg{hashes: map[string]bool{}, faults: map[string]int{}, probes: map[string]int{}, perScenario: map[string]int{}, panicClasses: map[string]int{}, points: map[string]bool{}}
+	a := &agg{hashes: map[string]bool{}, faults: map[string]int{}, probes: map[string]int{}, perScenario: map[string]int{}, panicClasses: map[string]int{}, points: map[string]bool{}, spawns: map[string]int{}}
 	searchStart := time.Now()
 	for _, sb := range ps.Scenarios {
 		secs := sb.QuickSec
@@ -646,6 +651,7 @@ func writeEvidence(ps propSpec, tier string, seed uint64, a *agg, wall, searchWa
 			"determinism_rechecks_failed": a.mismatch,
 			"runs_per_scenario":   a.perScenario,
 			"distinct_fault_points_fired": len(a.points),
+			"library_goroutines_by_spawn_site": a.spawns,
 			"known_findings_seen": knownSeen,
 			"reported":            reported,
 			"exhaustive":          false,
